@@ -360,6 +360,7 @@ func (t *Terminfo) TParm(s string, p ...interface{}) string {
 	)
 
 	skip := emit
+	nest := 0
 
 	for {
 
@@ -381,13 +382,33 @@ func (t *Terminfo) TParm(s string, p ...interface{}) string {
 			break
 		}
 		if skip == toEnd {
-			if ch == ';' {
-				skip = emit
+			// skipping to the end of this conditional: conditionals
+			// nested inside the skipped text have their own %;
+			switch ch {
+			case '?':
+				nest++
+			case ';':
+				if nest == 0 {
+					skip = emit
+				} else {
+					nest--
+				}
 			}
 			continue
 		} else if skip == toElse {
-			if ch == 'e' || ch == ';' {
-				skip = emit
+			switch ch {
+			case '?':
+				nest++
+			case ';':
+				if nest == 0 {
+					skip = emit
+				} else {
+					nest--
+				}
+			case 'e':
+				if nest == 0 {
+					skip = emit
+				}
 			}
 			continue
 		}
